@@ -520,6 +520,30 @@ def run_round(exe, rnd, work, idx, env_extra, timeout):
     return idx, out, logs
 
 
+def callback_rendezvous(ctx):
+    """the process-wide interrupt callback from two threads with their own contexts and objects (harness/c13_cb.c): thread A stays
+    inside the registered callback while thread B runs a complete interruptible call whose callback invocation requests an interrupt;
+    each thread's transcript must equal that of the same calls run one after the other"""
+    exe = os.path.join(BUILD, 'bin', 'c13_cb')
+    if not ctx.cxx(os.path.join(ROOT, 'harness/c13_cb.c'), exe, 'rel'):
+        return
+    lines = ['%s %d' % (op, n) for op in 'HB' for n in (4, 8, 50, 300)]
+    out = ctx.run_lines([exe], lines, timeout=300, line_timeout=60)
+    polled = 0
+    for l, o in zip(lines, out):
+        ctx.count(('callback-rendezvous', l), True)
+        if o.startswith('OK'):
+            polled += ' b=0' not in o
+            continue
+        ctx.violation('callback_rendezvous_%s' % l.replace(' ', '_'),
+                      dict(program='two threads, own contexts and geometries, one registered interrupt callback; A parks inside its first callback invocation, B runs %s and its callback requests an interrupt' % l,
+                           implementation=o.strip()[:700], expected='both transcripts equal the sequential run (B: NULL, interrupted)', replay='echo "%s" | %s' % (l, exe)),
+                      msg='callback rendezvous: ' + o.strip()[:300])
+    ctx.notes['callback_rendezvous'] = dict(cases=len(lines), with_poll_on_B=polled)
+    if polled == 0:
+        ctx.broken.append(dict(kind='generator', name='callback_rendezvous', detail='no case in which thread B reached a polling point'))
+
+
 def run(ctx):
     ctx.cov['rule'] = ('multi-threaded rounds: T threads (2..16), each with its own context, running a generated program of reentrant C API calls on private geometries and, '
                        'for reader/mixed threads, on shared immutable geometries (plus a shared pre-built STRtree and a pre-warmed prepared geometry), with context '
@@ -571,6 +595,8 @@ def run(ctx):
             ctx.known_hit(k, '%s [static: %s (%s) is written by %s, reachable from reentrant entry points]' % (k['what'], r['sym'], r['decl'], ', '.join(r['writers_reachable'])))
     if not tsanb:
         return
+    if ctx.build_repo('rel'):
+        callback_rendezvous(ctx)
     exe = os.path.join(BUILD, 'bin', 'c13_tsan')
     if not ctx.cxx(os.path.join(ROOT, 'harness/c13.cpp'), exe, 'tsan'):
         return
